@@ -530,6 +530,23 @@ func TestC09(t *testing.T) {
 		s.St.Exhaust("every position of 12 native strings replaced by each of 7 Unicode characters with ASCII case mappings", int64(n))
 	}, strCheck)
 	cliCheck := func(c c09Str) error { return c09CheckCLI(c, s.St) }
+	// a valid string with white space around it, as an argument and as a line of a recipients file
+	pbt.Each(s, "malformed-cli", func(yield func(c09Str)) {
+		rec := refage.Bech32Encode("age", refage.X25519Public(hx.PRG(41, 32)))
+		n := 0
+		for _, ws := range []string{" ", "\t", "\v", "\f", "  ", "\u0085", "\u00a0", "\u2003", "\u3000"} {
+			for _, where := range []int{0, 1, 2} {
+				str := map[int]string{0: rec + ws, 1: rec + ws + ws, 2: rec + ws + " "}[where]
+				// (appended only: a string has to begin with age1 to be taken for a recipient at all)
+				for len(str)%3 != 0 {
+					str += " "
+				}
+				yield(c09Str{S: str, Class: "whitespace", MustReject: true, Native: true})
+				n++
+			}
+		}
+		s.St.Exhaust("a valid recipient string followed by white space of 9 kinds (blank, TAB, VT, FF, NEL, NBSP, EM SPACE, IDEOGRAPHIC SPACE), as the only line of a recipients file", int64(n))
+	}, cliCheck)
 	pbt.Rapid(s, "malformed-cli", s.N(150, 1000), c09Malformed, cliCheck)
 	pbt.Rapid(s, "typos-cli", s.N(150, 1000), c09Typos, cliCheck)
 	pbt.Rapid(s, "malformed", s.N(30000, 250000), c09Malformed, strCheck)
